@@ -47,6 +47,11 @@ def check(run, prog, tier):
     run.rule("C03-G", "transition dipoles and state energies: exhaustive finite evaluation over occupation "
                       "signatures", minimum=6)
     rule_G(run, prog)
+    run.rule("C03-H", "the Hamiltonian and dipole operators handed out are the built Frenkel operators, not live "
+                      "views of arrays the aggregate rewrites in place", minimum=2)
+    from . import c11
+    from ..report import RuleProxy
+    c11.rule_E(RuleProxy(run, "C03-H"), prog)
 
 
 def _signatures(n, mmax, total):
